@@ -1146,3 +1146,285 @@ func ruleN3(c *Ctx) *RuleResult {
 	}
 	return r
 }
+
+// ---------------------------------------------------------------------------
+// F9: request-controlled text reaches quoted attributes only through the query re-encoder
+
+func init() {
+	registerRule("F9", "quoted attributes are injection-free: every string the muxer stores into a playlist field that the encoder prints inside quotes is built from constants, library-owned fields and the re-encoded (url.Values.Encode) query only — never from the raw request query", ruleF9)
+}
+
+type cleanCtx struct {
+	c    *Ctx
+	memo map[ssa.Value]string
+	busy map[ssa.Value]bool
+}
+
+// why returns "" when v cannot carry raw request text.
+func (k *cleanCtx) why(v ssa.Value, depth int) string {
+	if depth > 14 {
+		return "provenance too deep"
+	}
+	if w, ok := k.memo[v]; ok {
+		return w
+	}
+	if k.busy[v] {
+		return ""
+	}
+	k.busy[v] = true
+	defer delete(k.busy, v)
+	w := k.why0(v, depth)
+	k.memo[v] = w
+	return w
+}
+
+func (k *cleanCtx) why0(v ssa.Value, depth int) string {
+	c := k.c
+	switch x := v.(type) {
+	case *ssa.Const:
+		return ""
+	case *ssa.BinOp:
+		if x.Op == token.ADD {
+			if w := k.why(x.X, depth+1); w != "" {
+				return w
+			}
+			return k.why(x.Y, depth+1)
+		}
+		return ""
+	case *ssa.Convert:
+		return k.why(x.X, depth+1)
+	case *ssa.ChangeType:
+		return k.why(x.X, depth+1)
+	case *ssa.Phi:
+		for i, e := range x.Edges {
+			// an edge on which the value is known to be empty carries nothing
+			pred := x.Block().Preds[i]
+			if emptyOnEdge(e, pred, x.Block()) {
+				continue
+			}
+			if w := k.why(e, depth+1); w != "" {
+				return w
+			}
+		}
+		return ""
+	case *ssa.UnOp:
+		if x.Op == token.MUL {
+			if f, _ := fieldOfAddr(x.X); f != nil {
+				if f.Pkg() != nil && isLibPkgPath(f.Pkg().Path()) {
+					return "" // library-owned state (paths, names, ids)
+				}
+				return "reads " + c.fieldName(f) + " (request data) at " + c.Pos(x.Pos())
+			}
+			if al, ok := x.X.(*ssa.Alloc); ok {
+				for _, ref := range *al.Referrers() {
+					if st, ok := ref.(*ssa.Store); ok && st.Addr == al {
+						if w := k.why(st.Val, depth+1); w != "" {
+							return w
+						}
+					}
+				}
+				return ""
+			}
+		}
+		return "unrecognised source " + v.String()
+	case *ssa.Alloc:
+		for _, ref := range *x.Referrers() {
+			if st, ok := ref.(*ssa.Store); ok && st.Addr == x {
+				if w := k.why(st.Val, depth+1); w != "" {
+					return w
+				}
+			}
+		}
+		return ""
+	case *ssa.Parameter:
+		fn := x.Parent()
+		idx := -1
+		for i, p := range fn.Params {
+			if p == x {
+				idx = i
+			}
+		}
+		n := 0
+		for _, e := range c.callersOf(fn) {
+			if e.Site == nil || !InLib(e.Caller.Func) {
+				continue
+			}
+			args := e.Site.Common().Args
+			var arg ssa.Value
+			if e.Site.Common().IsInvoke() || e.Site.Common().StaticCallee() == nil {
+				// dynamic call through a func value: parameters line up with the arguments
+				off := 0
+				if fn.Signature.Recv() != nil {
+					off = 1
+				}
+				if idx-off >= 0 && idx-off < len(args) {
+					arg = args[idx-off]
+				}
+			} else if idx < len(args) {
+				arg = args[idx]
+			}
+			if arg == nil {
+				continue
+			}
+			n++
+			if w := k.why(arg, depth+1); w != "" {
+				return "argument at " + c.Pos(e.Site.Pos()) + " in " + FuncName(e.Caller.Func) + ": " + w
+			}
+		}
+		if n == 0 {
+			return "parameter " + x.Name() + " of " + FuncName(fn) + " has no library call site"
+		}
+		return ""
+	case *ssa.FreeVar:
+		fn := x.Parent()
+		idx := -1
+		for i, fv := range fn.FreeVars {
+			if fv == x {
+				idx = i
+			}
+		}
+		w := ""
+		if fn.Parent() != nil {
+			allInstrs(fn.Parent(), func(in ssa.Instruction) {
+				if mc, ok := in.(*ssa.MakeClosure); ok && mc.Fn == fn && idx >= 0 && idx < len(mc.Bindings) {
+					if ww := k.why(mc.Bindings[idx], depth+1); ww != "" {
+						w = ww
+					}
+				}
+			})
+		}
+		return w
+	case *ssa.Call:
+		f := x.Call.StaticCallee()
+		if isMethodNamed(f, "net/url", "Values", "Encode") {
+			return ""
+		}
+		if f != nil && f.Pkg != nil && f.Pkg.Pkg.Path() == "strconv" {
+			return ""
+		}
+		if f != nil && InLib(f) && f.Blocks != nil {
+			bad := ""
+			allInstrs(f, func(in ssa.Instruction) {
+				if ret, ok := in.(*ssa.Return); ok && len(ret.Results) > 0 {
+					if w := k.why(retVal(ret, 0), depth+1); w != "" {
+						bad = "result of " + FuncName(f) + ": " + w
+					}
+				}
+			})
+			return bad
+		}
+		// any other call: its result can only carry request text that one of its operands carries
+		if x.Call.IsInvoke() {
+			if w := k.why(x.Call.Value, depth+1); w != "" {
+				return w
+			}
+		}
+		for _, a := range x.Call.Args {
+			if w := k.why(a, depth+1); w != "" {
+				return w
+			}
+		}
+		return ""
+	case *ssa.Extract:
+		return k.why(x.Tuple, depth+1)
+	case *ssa.Slice:
+		return k.why(x.X, depth+1)
+	case *ssa.MakeInterface:
+		return k.why(x.X, depth+1)
+	case *ssa.TypeAssert:
+		return k.why(x.X, depth+1)
+	case *ssa.Field:
+		if f, _ := fieldOfValue(x); f != nil && f.Pkg() != nil && isLibPkgPath(f.Pkg().Path()) {
+			return ""
+		}
+		return k.why(x.X, depth+1)
+	case *ssa.IndexAddr:
+		return k.why(x.X, depth+1)
+	case *ssa.Lookup:
+		return k.why(x.X, depth+1)
+	case *ssa.FieldAddr:
+		if f, _ := fieldOfAddr(x); f != nil && f.Pkg() != nil && isLibPkgPath(f.Pkg().Path()) {
+			return ""
+		}
+		return "address of " + x.String()
+	case *ssa.Global, *ssa.Function, *ssa.MakeClosure, *ssa.MakeSlice, *ssa.MakeMap:
+		return ""
+	}
+	return "unrecognised source " + v.String()
+}
+
+// emptyOnEdge: the edge pred→blk is only taken when v == "".
+func emptyOnEdge(v ssa.Value, pred, blk *ssa.BasicBlock) bool {
+	if len(pred.Instrs) == 0 {
+		return false
+	}
+	iff, ok := pred.Instrs[len(pred.Instrs)-1].(*ssa.If)
+	if !ok {
+		return false
+	}
+	bo, ok := iff.Cond.(*ssa.BinOp)
+	if !ok || bo.X != v {
+		return false
+	}
+	s, isS := constString(bo.Y)
+	if !isS || s != "" {
+		return false
+	}
+	takenWhenTrue := pred.Succs[0] == blk
+	if pred.Succs[0] == pred.Succs[1] {
+		return false
+	}
+	return (bo.Op == token.NEQ && !takenWhenTrue) || (bo.Op == token.EQL && takenWhenTrue)
+}
+
+func ruleF9(c *Ctx) *RuleResult {
+	r := &RuleResult{Floor: 4, FloorWhat: "stores into playlist fields that are printed inside quotes"}
+	// fields printed inside quotes
+	quoted := map[*types.Var]bool{}
+	for _, ea := range c.emittedAttrs() {
+		if ea.quoted && ea.val != nil {
+			for _, f := range fieldsFeeding(ea.val, 0) {
+				if isPlaylistField(c, f) {
+					quoted[f] = true
+				}
+			}
+		}
+	}
+	if len(quoted) < 10 {
+		r.undecided("only %d quoted playlist fields found (floor 10)", len(quoted))
+	}
+	ro := c.roles()
+	set := c.reachRole(ro.R)
+	k := &cleanCtx{c: c, memo: map[ssa.Value]string{}, busy: map[ssa.Value]bool{}}
+	n := 0
+	for _, fn := range c.Funcs {
+		if !set[fn] || !InRootPkg(fn) {
+			continue
+		}
+		cnt := 0
+		allInstrs(fn, func(in ssa.Instruction) {
+			st, ok := in.(*ssa.Store)
+			if !ok {
+				return
+			}
+			f, _ := fieldOfAddr(st.Addr)
+			if f == nil || !quoted[f] {
+				return
+			}
+			if _, isConst := st.Val.(*ssa.Const); isConst {
+				return
+			}
+			n++
+			cnt++
+			key := fmt.Sprintf("%s|%s#%d", FuncName(fn), c.fieldName(f), cnt)
+			what := c.fieldName(f) + " is printed inside quotes: nothing stored into it may carry raw request text"
+			if w := k.why(st.Val, 0); w == "" {
+				r.ok(key, c.Pos(st.Pos()), FuncName(fn), what, "built from constants, library-owned fields and the re-encoded query")
+			} else {
+				r.fail(key, c.Pos(st.Pos()), FuncName(fn), what, w+": a request whose query contains a double quote yields a playlist that no parser (including this library's) accepts")
+			}
+		})
+	}
+	r.Instances = n
+	return r
+}
